@@ -963,7 +963,7 @@ Definition canon (v : rdata) (k : fkind) (x : fval) : Prop :=
   | K_u64 => exists n, x = V_n n /\ n < 18446744073709551616
   | K_name _ => exists ls, x = V_s (show_name ls) /\ valid_wire ls = true
   | K_string => exists d, x = V_s (show_txt d) /\ str_ok d
-  | K_txt => exists ds, x = V_ss (map show_txt ds) /\ ds <> [] /\ Forall str_ok ds
+  | K_txt => exists ds, x = V_ss (map show_txt ds) /\ Forall str_ok ds
   | K_octet => exists d, x = V_s (esc_bs d)
   | K_any => exists d, x = V_s d
   | K_hex e | K_hexdash e | K_b64 e | K_b32 e => exists d, x = V_enc d /\ size_agrees v e d
@@ -1062,14 +1062,17 @@ Proof.
     intros pre post got _ _. cbn [unpack_field]. cbv zeta.
     rewrite unpack_string_exact. reflexivity.
   - (* []string *)
-    destruct Hc as [ds [-> [Hne Hds]]]. rewrite Hv in Hp. cbn [as_ss] in Hp.
+    destruct Hc as [ds [-> Hds]]. rewrite Hv in Hp. cbn [as_ss] in Hp.
     unfold pack_txt in Hp.
-    assert (Hp' : pack_txts (map show_txt ds) cap (st0 out) = Ok st').
-    { destruct ds as [|d0 ds']; [congruence|]. cbn [map] in *.
-      destruct (pack_txts _ cap (st0 out)) as [s| | |]; try discriminate. exact Hp. }
-    apply pack_txts_show in Hp'; [|exact Hds]. subst st'.
+    assert (Hp' : st' = st0 (out ++ concat (map enc_str ds))).
+    { destruct ds as [|d0 ds'].
+      - cbn [map] in Hp. destruct (cap <=? poff (st0 out)); [discriminate|]. injection Hp as <-.
+        cbn. now rewrite app_nil_r.
+      - apply (pack_txts_show (d0 :: ds') cap); [exact Hds|].
+        destruct (pack_txts (map show_txt (d0 :: ds')) cap (st0 out)) as [s| | |]; try discriminate. exact Hp. }
+    subst st'.
     exists (concat (map enc_str ds)). split; [reflexivity|]. split.
-    { intro E. exfalso. now apply (concat_enc_str_nonempty ds). }
+    { intro E. destruct ds as [|d0 ds']; [reflexivity|]. exfalso. now apply (concat_enc_str_nonempty (d0 :: ds')). }
     intros pre post got Hpost _. cbn [unpack_field]. cbv zeta.
     rewrite (Hpost eq_refl), app_nil_r, unpack_txt_exact. reflexivity.
   - (* octet string *)
@@ -1266,3 +1269,384 @@ Proof.
     bfalse (N.land (vget_n v tyf0) mask0 =? gw_host).
     f_equal. f_equal. rewrite lenN_nil. lia.
 Qed.
+
+(* ================================================================== *)
+(* wire -> value -> wire *)
+
+(* cutting a message at two offsets *)
+Lemma takeN_split (msg : bytes) off n :
+  off + n <= lenN msg -> takeN (off + n) msg = takeN off msg ++ take_at msg off n.
+Proof.
+  intro H. unfold takeN, take_at, dropN.
+  replace (N.to_nat (off + n)) with (N.to_nat off + N.to_nat n)%nat by lia.
+  rewrite <- (firstn_skipn (N.to_nat off) msg) at 1.
+  rewrite firstn_app, firstn_length.
+  assert (Hl : (N.to_nat off <= length msg)%nat) by (unfold lenN in H; lia).
+  rewrite Nat.min_l by exact Hl.
+  replace (N.to_nat off + N.to_nat n - N.to_nat off)%nat with (N.to_nat n) by lia.
+  rewrite firstn_firstn. rewrite Nat.min_r by lia. reflexivity.
+Qed.
+Lemma lenN_take_at (msg : bytes) off n : off + n <= lenN msg -> lenN (take_at msg off n) = n.
+Proof. intro H. unfold take_at, takeN, dropN, lenN in *. rewrite firstn_length, skipn_length. lia. Qed.
+Lemma wfb_take_at msg off n : wfb msg -> wfb (take_at msg off n).
+Proof. intro H. unfold take_at, takeN, dropN. apply Forall_firstn', Forall_skipn', H. Qed.
+Lemma lenN_takeN' {A} (l : list A) n : n <= lenN l -> lenN (takeN n l) = n.
+Proof. intro H. unfold takeN, lenN in *. rewrite firstn_length. lia. Qed.
+Lemma take_at_1 (msg : bytes) off : off < lenN msg -> take_at msg off 1 = [nthN msg off 0].
+Proof.
+  intro H. unfold take_at, takeN, dropN, nthN. change (N.to_nat 1) with 1%nat.
+  assert (Hl : (N.to_nat off < length msg)%nat) by (unfold lenN in H; lia).
+  revert Hl. generalize (N.to_nat off). clear. intro n. revert msg.
+  induction n as [|n IH]; intros msg Hl; destruct msg as [|x msg]; cbn in *; try lia; [reflexivity|].
+  apply IH. lia.
+Qed.
+Lemma takeN_full {A} (l : list A) : takeN (lenN l) l = l.
+Proof. apply takeN_all. Qed.
+Lemma take_drop_full (msg : bytes) off : off <= lenN msg -> takeN off msg ++ dropN off msg = msg.
+Proof. intros _. apply firstn_skipn. Qed.
+Lemma take_at_to_end (msg : bytes) off : take_at msg off (lenN msg - off) = dropN off msg.
+Proof.
+  unfold take_at, takeN, dropN, lenN. apply firstn_all2. rewrite skipn_length. lia.
+Qed.
+
+(* big-endian octets back from their value *)
+Lemma u8_be b : wfb b -> lenN b = 1 -> u8 (be b 0) = b.
+Proof.
+  intros Hw Hl. destruct b as [|a [|? ?]]; try (cbn in Hl; lia).
+  inversion Hw; subst. unfold u8. cbn [be]. f_equal. lia.
+Qed.
+Lemma u16_be b : wfb b -> lenN b = 2 -> u16 (be b 0) = b.
+Proof.
+  intros Hw Hl. destruct b as [|a [|c [|? ?]]]; try (cbn in Hl; lia).
+  inversion Hw as [|? ? Ha Hw1]; subst. inversion Hw1 as [|? ? Hc _]; subst.
+  unfold u16. cbn [be]. f_equal; [lia|f_equal; lia].
+Qed.
+Lemma u32_be b : wfb b -> lenN b = 4 -> u32 (be b 0) = b.
+Proof.
+  intros Hw Hl. destruct b as [|a [|c [|d [|e [|? ?]]]]]; try (cbn in Hl; lia).
+  inversion Hw as [|? ? Ha Hw1]; subst. inversion Hw1 as [|? ? Hc Hw2]; subst.
+  inversion Hw2 as [|? ? Hd Hw3]; subst. inversion Hw3 as [|? ? He _]; subst.
+  unfold u32. cbn [be]. repeat (f_equal; try lia).
+Qed.
+Lemma be_acc b : forall acc, be b acc = acc * 256 ^ lenN b + be b 0.
+Proof.
+  induction b as [|x b IH]; intro acc; cbn [be].
+  - rewrite lenN_nil. cbn. lia.
+  - rewrite (IH (acc * 256 + x)), (IH (0 * 256 + x)), lenN_cons.
+    replace (1 + lenN b) with (N.succ (lenN b)) by lia. rewrite N.pow_succ_r by lia. lia.
+Qed.
+Lemma be_bound b : wfb b -> be b 0 < 256 ^ lenN b.
+Proof.
+  induction 1 as [|x b Hx _ IH]; [cbn; lia|]. cbn [be]. rewrite be_acc, lenN_cons.
+  replace (1 + lenN b) with (N.succ (lenN b)) by lia. rewrite N.pow_succ_r by lia. nia.
+Qed.
+Lemma split_bytes (b : bytes) n : n <= lenN b -> b = takeN n b ++ dropN n b /\ lenN (takeN n b) = n /\ lenN (dropN n b) = lenN b - n.
+Proof.
+  intro H. split; [symmetry; apply firstn_skipn|]. split; [now apply lenN_takeN'|].
+  unfold dropN, lenN. rewrite skipn_length. lia.
+Qed.
+Lemma wfb_split (b : bytes) n : wfb b -> wfb (takeN n b) /\ wfb (dropN n b).
+Proof. intro H. split; [apply Forall_firstn', H|apply Forall_skipn', H]. Qed.
+Lemma u48_be b : wfb b -> lenN b = 6 -> u48 (be b 0) = b.
+Proof.
+  intros Hw Hl. destruct (split_bytes b 2 ltac:(lia)) as [E [L1 L2]]. destruct (wfb_split b 2 Hw) as [W1 W2].
+  set (hi := takeN 2 b) in *. set (lo := dropN 2 b) in *. rewrite E.
+  rewrite be_app, be_acc. rewrite L2, Hl. change (256 ^ (6 - 2)) with 4294967296.
+  pose proof (be_bound lo W2) as Hb. rewrite L2, Hl in Hb. change (256 ^ (6 - 2)) with 4294967296 in Hb.
+  unfold u48.
+  replace ((be hi 0 * 4294967296 + be lo 0) / 4294967296) with (be hi 0) by lia.
+  replace ((be hi 0 * 4294967296 + be lo 0) mod 4294967296) with (be lo 0) by lia.
+  rewrite u16_be, u32_be by (assumption || lia). reflexivity.
+Qed.
+Lemma u64_be b : wfb b -> lenN b = 8 -> u64 (be b 0) = b.
+Proof.
+  intros Hw Hl. destruct (split_bytes b 4 ltac:(lia)) as [E [L1 L2]]. destruct (wfb_split b 4 Hw) as [W1 W2].
+  set (hi := takeN 4 b) in *. set (lo := dropN 4 b) in *. rewrite E.
+  rewrite be_app, be_acc. rewrite L2, Hl. change (256 ^ (8 - 4)) with 4294967296.
+  pose proof (be_bound lo W2) as Hb. rewrite L2, Hl in Hb. change (256 ^ (8 - 4)) with 4294967296 in Hb.
+  unfold u64.
+  replace ((be hi 0 * 4294967296 + be lo 0) / 4294967296) with (be hi 0) by lia.
+  replace ((be hi 0 * 4294967296 + be lo 0) mod 4294967296) with (be lo 0) by lia.
+  rewrite !u32_be by (assumption || lia). reflexivity.
+Qed.
+
+(* the escape reader accepts what the printers write, given room *)
+Lemma ptx_go_show_txt_ok data : forall acc off0 cap, wfb data ->
+  off0 + lenN acc + lenN data <= cap ->
+  ptx_go (show_txt data) acc off0 cap = Ok (acc ++ data).
+Proof.
+  induction data as [|b data IH]; intros acc off0 cap Hw Hcap.
+  - cbn. now rewrite app_nil_r.
+  - inversion Hw as [|? ? Hb Hw']; subst. rewrite show_txt_cons, ptx_go_show_txt_octet by exact Hb.
+    rewrite lenN_cons in Hcap. bfalse (cap <=? off0 + lenN acc).
+    rewrite IH; [now rewrite <- app_assoc|exact Hw'|]. rewrite lenN_app, lenN_cons, lenN_nil. lia.
+Qed.
+Lemma ptx_go_esc_bs_ok data : forall acc off0 cap,
+  off0 + lenN acc + lenN data <= cap ->
+  ptx_go (esc_bs data) acc off0 cap = Ok (acc ++ data).
+Proof.
+  induction data as [|b data IH]; intros acc off0 cap Hcap.
+  - cbn. now rewrite app_nil_r.
+  - unfold esc_bs. cbn [flat_map]. fold (esc_bs data). unfold esc_bs_octet. rewrite lenN_cons in Hcap.
+    assert (Hn : off0 + lenN (acc ++ [b]) + lenN data <= cap) by (rewrite lenN_app, lenN_cons, lenN_nil; lia).
+    destruct (N.eqb_spec b 92) as [->|Hb]; cbn [app].
+    + rewrite ptx_go_esc by (apply is_ddd_nondigit; reflexivity). bfalse (cap <=? off0 + lenN acc).
+      rewrite IH by exact Hn. now rewrite <- app_assoc.
+    + rewrite ptx_go_plain by exact Hb. bfalse (cap <=? off0 + lenN acc).
+      rewrite IH by exact Hn. now rewrite <- app_assoc.
+Qed.
+Lemma show_txt_len data : lenN (show_txt data) <= 4 * lenN data.
+Proof.
+  induction data as [|b data IH]; [cbn; lia|]. rewrite show_txt_cons, lenN_app, lenN_cons.
+  assert (lenN (show_txt_octet b) <= 4).
+  { unfold show_txt_octet, ddd. destruct (_ || _); [cbn; lia|]. destruct (_ || _); cbn; lia. }
+  lia.
+Qed.
+
+Lemma take_at_split (msg : bytes) off a b :
+  off + a + b <= lenN msg -> take_at msg off (a + b) = take_at msg off a ++ take_at msg (off + a) b.
+Proof.
+  intro H. apply (app_inv_head (takeN off msg)).
+  rewrite <- takeN_split by lia. rewrite app_assoc, <- takeN_split by lia.
+  rewrite <- takeN_split by lia. f_equal. lia.
+Qed.
+
+Lemma pack_fixed_room b cap out : lenN out + lenN b <= cap ->
+  pack_fixed b cap (st0 out) = Ok (st0 (out ++ b)).
+Proof. intro H. unfold pack_fixed. rewrite poff_st0. bfalse (cap <? lenN out + lenN b). reflexivity. Qed.
+
+(* packing the character-string found at off *)
+Lemma pack_txt_string_take msg off cap out :
+  wfb msg -> off + 1 + nthN msg off 0 <= lenN msg -> lenN msg + 2 <= cap -> lenN out = off ->
+  pack_txt_string (show_txt (take_at msg (off + 1) (nthN msg off 0))) cap (st0 out) =
+  Ok (st0 (out ++ take_at msg off (1 + nthN msg off 0))).
+Proof.
+  intros Hw Hl Hc Ho. set (l := nthN msg off 0) in *. set (data := take_at msg (off + 1) l).
+  assert (Hdl : lenN data = l) by (apply lenN_take_at; lia).
+  assert (Hdw : wfb data) by (apply wfb_take_at, Hw).
+  assert (Hl256 : l < 256).
+  { unfold l, nthN. unfold wfb in Hw. rewrite Forall_forall in Hw. apply Hw, nth_In. unfold lenN in Hl. lia. }
+  unfold pack_txt_string. rewrite poff_st0, Ho.
+  pose proof (show_txt_len data).
+  bfalse ((cap <=? off) || (1025 <? lenN (show_txt data))).
+  rewrite ptx_go_show_txt_ok; [|exact Hdw|rewrite lenN_nil; lia]. cbn [bind app].
+  bfalse (255 <? lenN data). rewrite pemit_st0, Hdl. f_equal. f_equal. f_equal.
+  rewrite take_at_split by lia. rewrite take_at_1 by lia. reflexivity.
+Qed.
+
+Lemma unpack_txts_converse fuel : forall msg off acc l off' cap out,
+  wfb msg -> off <= lenN msg -> lenN msg + 2 <= cap -> lenN out = off ->
+  unpack_txts fuel msg off acc = Ok (l, off') ->
+  off <= off' <= lenN msg /\
+  exists l', l = acc ++ l' /\
+    pack_txts l' cap (st0 out) = Ok (st0 (out ++ take_at msg off (off' - off))).
+Proof.
+  induction fuel as [|f IH]; intros msg off acc l off' cap out Hw Hoff Hcap Ho H; [discriminate|].
+  cbn [unpack_txts] in H. destruct (off <? lenN msg) eqn:E.
+  - unfold unpack_string in H. destruct (lenN msg <? off + 1) eqn:E1; [discriminate|].
+    destruct (lenN msg <? off + 1 + nthN msg off 0) eqn:E2; [discriminate|]. cbn [bind fst snd] in H.
+    set (n := nthN msg off 0) in *.
+    apply IH with (cap := cap) (out := out ++ take_at msg off (1 + n)) in H;
+      [|exact Hw|lia|exact Hcap|rewrite lenN_app, lenN_take_at by lia; lia].
+    destruct H as [Hr [l'' [-> Hp]]]. split; [lia|].
+    exists (show_txt (take_at msg (off + 1) n) :: l''). split; [now rewrite <- app_assoc|].
+    cbn [pack_txts]. unfold n at 1. rewrite pack_txt_string_take by (assumption || lia). cbn [bind]. fold n.
+    rewrite Hp. f_equal. f_equal. rewrite <- app_assoc. f_equal.
+    replace (off' - off) with (1 + n + (off' - (off + 1 + n))) by lia.
+    rewrite (take_at_split msg off (1 + n) (off' - (off + 1 + n))) by lia.
+    replace (off + (1 + n)) with (off + 1 + n) by lia. reflexivity.
+  - injection H as <- <-. split; [lia|]. exists []. split; [now rewrite app_nil_r|].
+    cbn [pack_txts]. rewrite N.sub_diag. unfold take_at, takeN. cbn. now rewrite app_nil_r.
+Qed.
+
+(* the kinds of the converse theorem, and what plain octets means for them *)
+Definition conv_kind (k : fkind) : bool :=
+  match k with
+  | K_u8 | K_u16 | K_u32 | K_u48 | K_u64 | K_name _ | K_string | K_txt | K_octet | K_any
+  | K_hex _ | K_hexdash _ | K_b64 _ | K_b32 _ | K_a | K_aaaa => true
+  | _ => false
+  end.
+(* a name is plain when it is written out in full (no compression pointer); an
+   octet string when its text stays within packStringOctet's 1025-octet limit *)
+Definition plain_at (k : fkind) (msg : bytes) (off off' : N) : Prop :=
+  match k with
+  | K_name _ => exists ls, valid_wire ls = true /\ take_at msg off (off' - off) = wire_name ls
+  | K_octet => lenN (esc_bs (dropN off msg)) <= 1025
+  | _ => True
+  end.
+
+Ltac num_conv H lem n :=
+  cbn [unpack_field] in H; cbv zeta in H; unfold unpack_fixed in H;
+  match type of H with context [lenN ?m <? ?o + ?k] => destruct (lenN m <? o + k) eqn:E; [discriminate|] end;
+  cbn [bind fst snd] in H; injection H as <- <-; eexists; split; [reflexivity|];
+  intros v f out Hv Ho; cbn [pack_field]; rewrite Hv; cbn [as_n];
+  rewrite lem by (try apply wfb_take_at; try apply lenN_take_at; assumption || lia);
+  match goal with |- context [?o + n - ?o] => replace (o + n - o) with n by lia end;
+  apply pack_fixed_room; rewrite lenN_take_at by lia; lia.
+
+Ltac enc_conv H :=
+  cbn [unpack_field] in H; cbv zeta in H; unfold unpack_to_end in H;
+  match type of H with context [lenN ?m <? ?x] => destruct (lenN m <? x) eqn:E1; [discriminate|] end;
+  match type of H with context [?x <? ?o] => destruct (x <? o) eqn:E2; [discriminate|] end;
+  cbn [bind fst snd] in H; injection H as <- <-; eexists; split; [reflexivity|];
+  intros v f out Hv Ho; cbn [pack_field]; rewrite Hv; cbn [as_enc as_s];
+  apply pack_fixed_room; rewrite lenN_take_at by lia; lia.
+
+(* keep the kernel from unfolding the 400-step name recursion when it re-checks proofs *)
+Local Opaque un_go.
+Local Strategy opaque [unpack_name_fuel un_go].
+
+(* unpacking the octets msg[off:off'] as kind k' and packing the value as the
+   agreeing kind k writes exactly msg[off:off'] again *)
+Lemma field_converse got k k' msg off vals off' cap :
+  wfb msg -> conv_kind k = true -> kind_agree k k' = true -> off <= lenN msg ->
+  unpack_field got k' msg off = Ok (vals, off') -> plain_at k msg off off' ->
+  lenN msg + 320 <= cap ->
+  off <= off' <= lenN msg /\
+  exists x, vals = [x] /\
+    forall v f out, vget v f = Some x -> lenN out = off ->
+      pack_field v f k cap (st0 out) = Ok (st0 (out ++ take_at msg off (off' - off))).
+Proof.
+  intros Hw Hck Ha Hoff H Hplain Hcap.
+  pose proof (unpack_field_safe got k' msg off Hw Hoff) as Hsafe. rewrite H in Hsafe. cbn in Hsafe.
+  split; [exact Hsafe|].
+  destruct k; try discriminate Hck; destruct k'; cbn [kind_agree] in Ha; try discriminate Ha; clear Hck.
+  - num_conv H u8_be 1.
+  - num_conv H u16_be 2.
+  - num_conv H u32_be 4.
+  - num_conv H u48_be 6.
+  - num_conv H u64_be 8.
+  - (* name *)
+    destruct Hplain as [ls [Hls Ewire]].
+    assert (Hlen : lenN (wire_name ls) = off' - off) by (rewrite <- Ewire; apply lenN_take_at; lia).
+    assert (Emsg : msg = takeN off msg ++ wire_name ls ++ dropN off' msg).
+    { rewrite <- Ewire. rewrite app_assoc. replace off' with (off + (off' - off)) at 2 by lia.
+      rewrite <- takeN_split by lia. replace (off + (off' - off)) with off' by lia.
+      symmetry. apply firstn_skipn. }
+    cbn [unpack_field] in H. cbv zeta in H.
+    assert (Hun : unpack_name msg off = Ok (show_name ls, off + lenN (wire_name ls))).
+    { set (pre := takeN off msg) in *. set (post := dropN off' msg) in *.
+      assert (Eoff : lenN pre = off) by (apply lenN_takeN'; lia).
+      rewrite Emsg, <- Eoff. apply unpack_name_exact, Hls. }
+    rewrite Hun in H.
+    cbn [bind fst snd] in H. injection H as <- _. eexists. split; [reflexivity|].
+    intros v f out Hv Ho. cbn [pack_field]. rewrite Hv. cbn [as_s].
+    rewrite (pack_name_at (show_name ls) ls).
+    + now rewrite Ewire.
+    + apply is_fqdn_show_name, Hls.
+    + apply parse_show_name, Hls.
+    + apply valid_wire_len_ok, Hls.
+    + lia.
+  - (* character-string *)
+    cbn [unpack_field] in H. cbv zeta in H. unfold unpack_string in H.
+    destruct (lenN msg <? off + 1) eqn:E1; [discriminate|].
+    destruct (lenN msg <? off + 1 + nthN msg off 0) eqn:E2; [discriminate|].
+    cbn [bind fst snd] in H. injection H as <- <-. eexists. split; [reflexivity|].
+    intros v f out Hv Ho. cbn [pack_field]. rewrite Hv. cbn [as_s]. unfold pack_string.
+    rewrite pack_txt_string_take by (assumption || lia).
+    f_equal. f_equal. f_equal. f_equal. lia.
+  - (* []string *)
+    cbn [unpack_field] in H. cbv zeta in H. unfold unpack_txt in H.
+    destruct (unpack_txts (S (length msg)) msg off []) as [[l o]| | |] eqn:E; try discriminate.
+    cbn [bind fst snd] in H. injection H as <- <-. eexists. split; [reflexivity|].
+    intros v f out Hv Ho. cbn [pack_field]. rewrite Hv. cbn [as_ss]. unfold pack_txt.
+    apply unpack_txts_converse with (cap := cap) (out := out) in E; [|exact Hw|exact Hoff|lia|exact Ho].
+    destruct E as [_ [l' [-> Hp]]]. cbn [app] in *.
+    destruct l' as [|s l'].
+    + cbn in Hp. injection Hp as Hp. rewrite poff_st0, Ho. bfalse (cap <=? off).
+      unfold st0. now rewrite <- Hp.
+    + rewrite Hp. reflexivity.
+  - (* octet string *)
+    cbn [unpack_field plain_at] in *. cbv zeta in H. destruct (lenN msg <? off) eqn:E1; [discriminate|].
+    cbn [bind fst snd] in H. injection H as <- <-. eexists. split; [reflexivity|].
+    intros v f out Hv Ho. cbn [pack_field]. rewrite Hv. cbn [as_s]. unfold pack_octet.
+    rewrite poff_st0, Ho.
+    change (flat_map (fun b : N => if b =? 92 then [92; 92] else [b]) (dropN off msg)) with (esc_bs (dropN off msg)).
+    bfalse ((cap <=? off) || (1025 <? lenN (esc_bs (dropN off msg)))).
+    assert (Hdl : lenN (dropN off msg) = lenN msg - off) by (unfold dropN, lenN; rewrite skipn_length; lia).
+    rewrite ptx_go_esc_bs_ok by (rewrite lenN_nil, Hdl; lia).
+    cbn [bind app]. rewrite pemit_st0, take_at_to_end. reflexivity.
+  - (* any *)
+    enc_conv H.
+  - enc_conv H.
+  - enc_conv H.
+  - enc_conv H.
+  - enc_conv H.
+  - (* A *)
+    cbn [unpack_field] in H. cbv zeta in H. unfold unpack_fixed in H.
+    destruct (lenN msg <? off + 4) eqn:E; [discriminate|].
+    cbn [bind fst snd] in H. injection H as <- <-. eexists. split; [reflexivity|].
+    intros v f out Hv Ho. cbn [pack_field]. rewrite Hv. cbn [as_b]. unfold pack_a.
+    rewrite lenN_take_at by lia. replace (off + 4 - off) with 4 by lia.
+    apply pack_fixed_room. rewrite lenN_take_at by lia. lia.
+  - (* AAAA *)
+    cbn [unpack_field] in H. cbv zeta in H. unfold unpack_fixed in H.
+    destruct (lenN msg <? off + 16) eqn:E; [discriminate|].
+    cbn [bind fst snd] in H. injection H as <- <-. eexists. split; [reflexivity|].
+    intros v f out Hv Ho. cbn [pack_field]. rewrite Hv. cbn [as_b]. unfold pack_aaaa.
+    rewrite lenN_take_at by lia. replace (off + 16 - off) with 16 by lia.
+    apply pack_fixed_room. rewrite lenN_take_at by lia. lia.
+Qed.
+
+(* ------------------------------------------------------------------ *)
+(* APL: an address that is already masked to its prefix is canonical *)
+Lemma tzr_repeat l : exists j, l = repeat 0 j ++ trim_zeros_rev l.
+Proof.
+  induction l as [|x l [j IH]]; [exists 0%nat; reflexivity|].
+  destruct x as [|q].
+  - cbn [trim_zeros_rev]. exists (S j). cbn [repeat app]. now rewrite <- IH.
+  - exists 0%nat. reflexivity.
+Qed.
+Lemma trim_repeat l : exists j, l = trim_trailing_zeros l ++ repeat 0 j.
+Proof.
+  unfold trim_trailing_zeros. destruct (tzr_repeat (rev l)) as [j E]. exists j.
+  rewrite <- (rev_involutive l) at 1. rewrite E at 1. rewrite rev_app_distr, rev_repeat. reflexivity.
+Qed.
+Lemma pad_right_spec a : forall n, (length a <= n)%nat -> pad_right a n = a ++ repeat 0 (n - length a).
+Proof.
+  induction a as [|x a IH]; intros n H.
+  - cbn [length app]. rewrite Nat.sub_0_r. clear H. induction n as [|n IHn]; cbn; [reflexivity|now rewrite IHn].
+  - destruct n as [|n]; [cbn in H; lia|]. cbn [pad_right length app]. rewrite IH by (cbn in H; lia). reflexivity.
+Qed.
+Lemma mask_zero r : mask_bytes r 0 = repeat 0 (length r).
+Proof. induction r as [|b r IH]; [reflexivity|]. cbn [mask_bytes length repeat]. rewrite IH. cbn. f_equal. apply N.land_0_r. Qed.
+
+(* the octets of a masked address beyond the prefix are zero *)
+Lemma masked_tail ip : forall prefix, mask_bytes ip prefix = ip ->
+  skipn (N.to_nat ((prefix + 7) / 8)) ip = repeat 0 (length ip - N.to_nat ((prefix + 7) / 8)).
+Proof.
+  induction ip as [|b r IH]; intros prefix H; [now rewrite skipn_nil|].
+  cbn [mask_bytes] in H. destruct (8 <=? prefix) eqn:E8.
+  - injection H as H. specialize (IH _ H).
+    replace (N.to_nat ((prefix + 7) / 8)) with (S (N.to_nat ((prefix - 8 + 7) / 8))) by lia.
+    cbn [skipn length]. rewrite IH. f_equal.
+  - injection H as Hb Hr. rewrite mask_zero in Hr.
+    destruct (prefix =? 0) eqn:E0.
+    + assert (prefix = 0) by lia. subst prefix. cbn in Hb.
+      change (N.to_nat ((0 + 7) / 8)) with 0%nat. cbn [skipn]. rewrite Nat.sub_0_r. cbn [length repeat].
+      rewrite Hr. f_equal. rewrite <- Hb. apply N.land_0_r.
+    + replace (N.to_nat ((prefix + 7) / 8)) with 1%nat by lia. cbn [skipn length].
+      rewrite <- Hr at 1. f_equal. lia.
+Qed.
+
+Lemma masked_apl_ok neg prefix ip :
+  (lenN ip = 4 \/ lenN ip = 16) -> prefix <= 8 * lenN ip -> mask_bytes ip prefix = ip ->
+  apl_ok (neg, prefix, ip).
+Proof.
+  intros Hlen Hpre Hm. unfold apl_ok. split; [exact Hlen|]. split; [exact Hpre|].
+  unfold apl_addr. rewrite Hm. set (n := N.to_nat ((prefix + 7) / 8)).
+  assert (Hn : (n <= length ip)%nat) by (unfold n, lenN in *; lia).
+  unfold takeN. fold n.
+  destruct (trim_repeat (firstn n ip)) as [j Ej].
+  set (a := trim_trailing_zeros (firstn n ip)) in *.
+  assert (Hal : (length a + j = n)%nat).
+  { apply (f_equal (@length N)) in Ej. rewrite app_length, repeat_length, firstn_length in Ej. lia. }
+  rewrite pad_right_spec by lia.
+  pose proof (masked_tail ip prefix Hm) as Ht. fold n in Ht.
+  rewrite <- (firstn_skipn n ip) at 2. rewrite Ht.
+  rewrite Ej, <- app_assoc. f_equal. rewrite <- repeat_app. f_equal. lia.
+Qed.
+
+Example masked_apl_example :
+  apl_ok (true, 20, [10; 1; 16; 0]) /\ mask_bytes [10; 1; 16; 0] 20 = [10; 1; 16; 0].
+Proof. split; [apply masked_apl_ok; [left; reflexivity|cbn; lia|reflexivity]|reflexivity]. Qed.
